@@ -88,6 +88,10 @@ def unrat(s):
 
 def close(impl, model, tol=Fraction(1, 10**9)):
     """|impl - model| <= tol * max(1, |model|), decided exactly"""
+    import math
+
+    if isinstance(impl, float) and not math.isfinite(impl):
+        return False
     a, b = frac(impl), frac(model)
     return abs(a - b) <= tol * max(1, abs(b))
 
